@@ -4,10 +4,13 @@ case = {
   net: 0|1, last_slot: int,
   scripts: [{lang: 0 native | 1 | 2 | 3, hex: script bytes (Plutus) / CBOR of the native script, raw: bool (plain `bytes`)}],
   utxos:   [{id: hex32, ix: int, script_addr: bool, pay: hex28, coin: int,
-             datum: null | ['hash', hex32] | ['inline', hexcbor], script: sid | null, chain: bool}],
-  ops: [ ['input', uid] | ['sinput', uid, src, datum_hexcbor|null, rdm|null] | ['mint', src, rdm|null]
+             datum: null | ['hash', hex32] | ['inline', hexcbor, form?], script: sid | null, chain: bool}],
+  ops: [ ['input', uid] | ['sinput', uid, src, datum_hexcbor|null, rdm|null, form?] | ['mint', src, rdm|null]
        | ['wdrl', src, rdm|null] | ['cert', src, rdm|null] | ['addcert', {cred_script: bool, cred: hex28, pool: hex28}]
-       | ['outdatum', hexcbor] ],   native: [sid, ...] (the native_scripts field),
+       | ['outdatum', hexcbor, form?] ],   native: [sid, ...] (the native_scripts field),
+         form = 'raw' (default: the datum is handed over as RawCBOR) | 'prim' (as the Python value a user would write:
+                int, bytes, dict, IndefiniteList / list, RawPlutusData around a constructor tag — so that 0, b'', {} and
+                empty lists reach the builder as FALSY objects),
          src = ['none'] | ['utxo', uid] | ['script', sid];   rdm = {rid, tag: null|int, data: hexcbor, units: null|[mem, steps]}
   mint: [[policy hex28, [[name hex, qty], ...]], ...] (dict order),  wdrl: [[account hex29, coin], ...] (dict order),
   build: {change: hex28 key hash, use_map: bool, vstart: null|int, ttl: null|int, off_start: null|int, off_ttl: null|int,
@@ -20,7 +23,8 @@ result = {stage: 'ops' | 'build' | 'done', op: index of the failing op, err: kin
           tx: hex of build_and_sign(...).to_cbor(), wits_nodup: hex of build_witness_set(False).to_cbor(),
           rl: [[rid, tag, index, mem, steps], ...] the builder's _redeemer_list after the build,
           script_hashes: [hex28 per sid as pycardano.script_hash computes it], evals: number of evaluate calls,
-          n_inputs: number of inputs of the body, dflt: hex of cbor2.dumps(plutus.COST_MODELS)}
+          n_inputs: number of inputs of the body, dflt: hex of cbor2.dumps(plutus.COST_MODELS),
+          prim: [number of datums handed over in 'prim' form, how many of them were falsy objects]}
 """
 from _pre import *
 from fractions import Fraction
@@ -32,8 +36,8 @@ from pycardano import (Address, Asset, AssetName, ExecutionUnits, MultiAsset, Na
 from pycardano.backend.base import ChainContext, GenesisParameters, ProtocolParameters
 from pycardano.network import Network
 
-from pycardano.plutus import COST_MODELS
-from pycardano.serialization import default_encoder
+from pycardano.plutus import COST_MODELS, RawPlutusData
+from pycardano.serialization import default_encoder, IndefiniteList
 DFLT = cbor2.dumps(COST_MODELS, default=default_encoder).hex()      # the fallback of utils.script_data_hash
 TAGNAME = {0: 'spend', 1: 'mint', 2: 'certificate', 3: 'withdrawal', 4: 'voting', 5: 'proposing'}
 
@@ -122,6 +126,70 @@ def mk_script(spec):
     return {1: PlutusV1Script, 2: PlutusV2Script, 3: PlutusV3Script}[spec['lang']](b)
 
 
+def _parse(b, i):
+    """CBOR item at b[i:] -> (Python value as a pycardano user would write it, next index); indefinite arrays become
+    IndefiniteList, definite ones list, tags cbor2.CBORTag; only the shapes the scenario generator emits"""
+    m, ai = b[i] >> 5, b[i] & 31
+    if ai == 31:
+        if m != 4:
+            raise ValueError('indefinite item other than an array')
+        i += 1
+        out = []
+        while b[i] != 0xff:
+            v, i = _parse(b, i)
+            out.append(v)
+        return IndefiniteList(out), i + 1
+    if ai < 24:
+        n, j = ai, i + 1
+    else:
+        k = {24: 1, 25: 2, 26: 4, 27: 8}[ai]
+        n, j = int.from_bytes(b[i + 1:i + 1 + k], 'big'), i + 1 + k
+    if m == 0:
+        return n, j
+    if m == 1:
+        return -1 - n, j
+    if m == 2:
+        return bytes(b[j:j + n]), j + n
+    if m == 4:
+        out = []
+        for _ in range(n):
+            v, j = _parse(b, j)
+            out.append(v)
+        return out, j
+    if m == 5:
+        d = {}
+        for _ in range(n):
+            k, j = _parse(b, j)
+            v, j = _parse(b, j)
+            d[k] = v
+        return d, j
+    if m == 6:
+        v, j = _parse(b, j)
+        return cbor2.CBORTag(n, v), j
+    raise ValueError('unsupported CBOR major type')
+
+
+PRIM = [0, 0]                                             # per case: datums handed over in 'prim' form, falsy ones
+
+
+def mk_datum(hexcbor, form):
+    """the datum as a pycardano Datum object; 'prim' = the Python value whose CBOR is hexcbor (checked), so that falsy
+    values (0, b'', {}, empty lists) reach the code under test as falsy objects"""
+    b = bytes.fromhex(hexcbor)
+    if form != 'prim':
+        return RawCBOR(b)
+    v, j = _parse(b, 0)
+    if j != len(b):
+        raise ValueError('trailing bytes in datum')
+    if isinstance(v, cbor2.CBORTag):
+        v = RawPlutusData(v)
+    if cbor2.dumps(v, default=default_encoder) != b:
+        raise RuntimeError('primitive form of datum %s does not re-encode to the same bytes' % hexcbor)
+    PRIM[0] += 1
+    PRIM[1] += not v
+    return v
+
+
 def mk_addr(script_addr, pay, net):
     part = ScriptHash(bytes.fromhex(pay)) if script_addr else VerificationKeyHash(bytes.fromhex(pay))
     return Address(part, network=net)
@@ -133,7 +201,7 @@ def mk_utxo(spec, scripts, net):
     if d is not None and d[0] == 'hash':
         dh = DatumHash(bytes.fromhex(d[1]))
     elif d is not None:
-        dat = RawCBOR(bytes.fromhex(d[1]))
+        dat = mk_datum(d[1], d[2] if len(d) > 2 else 'raw')
     sc = scripts[spec['script']] if spec['script'] is not None else None
     if type(sc) is bytes:
         sc = PlutusV1Script(sc)                       # an output cannot hold a script of plain type bytes
@@ -153,11 +221,14 @@ def mk_rdm(r):
 
 
 def handler(case, payload):
+    global PRIM
+    PRIM = [0, 0]                                      # a fresh counter per case (mk_datum reads the global)
     ctx = Ctx(case, [])
     net = ctx.network
     scripts = [mk_script(s) for s in case['scripts']]
     res = {'script_hashes': [script_hash(s).payload.hex() for s in scripts], 'dflt': DFLT}
     utxos = [mk_utxo(u, scripts, net) for u in case['utxos']]
+    res['prim'] = PRIM                                 # this case's list object; the add_* calls below still count into it
     ctx.table = utxos
     B = case['build']
     b = TransactionBuilder(ctx, execution_memory_buffer=B['mem_buf'], execution_step_buffer=B['step_buf'],
@@ -202,7 +273,7 @@ def handler(case, payload):
                 if r is not None:
                     rids[id(r)] = op[4]['rid']
                 b.add_script_input(utxos[op[1]], src(op[2]),
-                                   RawCBOR(bytes.fromhex(op[3])) if op[3] is not None else None, r)
+                                   mk_datum(op[3], op[5] if len(op) > 5 else 'raw') if op[3] is not None else None, r)
             elif k in ('mint', 'wdrl', 'cert'):
                 r = mk_rdm(op[2])
                 if r is not None:
@@ -217,7 +288,7 @@ def handler(case, payload):
                     b.certificates = []
                 b.certificates.append(cert)
             elif k == 'outdatum':
-                d = RawCBOR(bytes.fromhex(op[1]))
+                d = mk_datum(op[1], op[2] if len(op) > 2 else 'raw')
                 b.add_output(TransactionOutput(mk_addr(True, 'ee' * 28, net), Value(2000000)), datum=d,
                              add_datum_to_witness=True)
             elif k == 'native':
